@@ -676,6 +676,18 @@ impl TTS {
 
     }
 
+    /// True if there is nothing to hear in `speech`: it is empty or, for SSML/SAPI5, it consists of tags only
+    /// (with Bookmark=true something silent such as an invisible times is still "spoken" as `<mark name='...'/>`).
+    pub fn is_silent(&self, speech: &str) -> bool {
+        lazy_static! {
+            static ref XML_TAG: Regex = Regex::new(r"<[^>]*>").unwrap();
+        }
+        return match self {
+            TTS::None => speech.is_empty(),
+            TTS::SSML | TTS::SAPI5 => XML_TAG.replace_all(speech, "").trim().is_empty(),
+        };
+    }
+
     /// Take the longest of the pauses
     ///
     /// Two other options are:
